@@ -130,6 +130,13 @@ def gen(rng, tier):
                     for kl in (1, 63, 64, 65, 128, 129):
                         login = bytes(rng.choice(b"abcdefghij-_.:") for _ in range(rng.choice([1, 4, 12, 200])))
                         yield "req %s %d %d %s %s %d" % (fam, ver, alg, hx(login), hx(rkey(rng, kl)), cb)
+            # requests that carry a configuration request (2, 3: beside the payload request; 4, 5: on its own)
+            for cb in (2, 3, 4, 5):
+                for alg in (1, 4, 5):
+                    yield "req %s %d %d %s %s %d" % (fam, ver, alg, hx(b"anon"), hx(rkey(rng, rng.choice([5, 64, 65, 200]))), cb)
+            # credentials inside the service URI: keys with colons, long keys
+            for k in (b"k", b"a:b", b"a:b:c", b":x", b"x:", b"key-" + b"y" * 70, b"p:" + b"q" * 64):
+                yield "requ %s %d %d %s %s 0" % (fam, ver, rng.choice([1, 4, 5]), hx(rng.choice([b"anon", b"user.name", b"u"])), hx(k))
             yield "req %s %d 0 %s %s 0" % (fam, ver, hx(b"anon"), hx(b"key"))      # SHA-1 is not trusted for a MAC
     # --- replies through the blocking client: authentic ones, and every way of not being authentic
     reps = valid_replies(rng, 0x1234)
